@@ -152,6 +152,25 @@ Definition op_put (fr : frec) (tag ref len : Z) (data : list Z) : frec * wlog :=
          (if f_end fr3 <? e then set_end fr3 e else fr3, w1 ++ w2 ++ w3 ++ [(off, data)])
   end.
 
+(** Hread / Hgetelement of an existing element: space reserved while caching is added to the file first
+    (HIextend_file; FILE_END_DIRTY cleared) *)
+Definition op_get (fr : frec) : frec * wlog :=
+  if f_cache fr && f_end_dirty fr then (set_end_dirty fr false, [(f_end fr, [0])]) else (fr, []).
+
+(** copying an element: Hstartwrite(tag, ref, len) reserves the space, an existing element is READ, then the new
+    one is written (Hwrite; Hendaccess) *)
+Definition op_copy (fr : frec) (tag ref len : Z) (data : list Z) : frec * wlog :=
+  if has_dd fr tag ref then (fr, []) else
+  let '(slot, fr1, w1) := create_dd fr tag ref in
+  let '(off, fr2, w2) := getdiskblock fr1 len in
+  let '(fr3, w3) := update_dd fr2 (fst slot) (snd slot) (mkdd tag ref off len) in
+  let '(fr4, w4) := op_get fr3 in
+  match data with
+  | [] => (fr4, w1 ++ w2 ++ w3 ++ w4)
+  | _ => let e := off + zlen data in
+         (if f_end fr4 <? e then set_end fr4 e else fr4, w1 ++ w2 ++ w3 ++ w4 ++ [(off, data)])
+  end.
+
 (** Hstartaccess(new, appendable); one Hwrite per chunk; Hendaccess.  The first write sets the length
     (Hsetlength); every later one finds the element at the end of the file and extends it in place. *)
 Fixpoint app_writes (fr : frec) (slot : nat * nat) (tag ref off posn : Z) (chunks : list (list Z)) : frec * wlog :=
@@ -254,7 +273,9 @@ Inductive op :=
 | OpPut (tag ref len : Z) (data : list Z)
 | OpApp (tag ref : Z) (chunks : list (list Z))
 | OpPutNew (tag len : Z) (data : list Z)
-| OpDel (tag ref : Z).
+| OpDel (tag ref : Z)
+| OpGet
+| OpCopy (tag ref len : Z) (data : list Z).
 
 Definition run_op (fr : frec) (o : op) : frec * wlog :=
   match o with
@@ -262,6 +283,8 @@ Definition run_op (fr : frec) (o : op) : frec * wlog :=
   | OpApp t r c => op_app fr t r c
   | OpPutNew t l d => op_putn fr t l d
   | OpDel t r => op_del fr t r
+  | OpGet => op_get fr
+  | OpCopy t r l d => op_copy fr t r l d
   end.
 
 Fixpoint run_ops (fr : frec) (ops : list op) : frec * wlog :=
@@ -301,6 +324,9 @@ Definition op_ok (o : op) : bool :=
                    forallb (fun x => byte_list_ok x && (0 <? zlen x)) c && negb (length c =? 0)%nat
   | OpPutNew t l d => (0 <=? t) && (t <? 65536) && negb (t =? DFTAG_NULL) && (0 <=? l) && (zlen d <=? l) && byte_list_ok d
   | OpDel _ _ => false
+  | OpGet => true
+  | OpCopy t r l d => (0 <=? t) && (t <? 65536) && negb (t =? DFTAG_NULL) && (0 <=? r) && (r <? 65536) &&
+                      (0 <=? l) && (zlen d <=? l) && byte_list_ok d
   end.
 
 (** the wider class of the first sentence of the property: deletions of old elements are allowed too
